@@ -8,7 +8,7 @@ from props import c01, c10
 ID = "C14"
 LEVEL = "proof"
 THEOREMS = ["C14_flat_ignores_dummy", "C14_emitted_items_ignore_dummy", "C14_emitted_items_nonempty", "C14_no_empty_lines",
-            "C14_dummy_denotes_nothing", "C14_strands_reread", "C14_designer_accepts", "C14_finisher_accepts", "C14_system_designer_accepts", "C14_finisher_accepts_unconditional", "C14_system_finisher_accepts"]
+            "C14_dummy_denotes_nothing", "C14_strands_reread", "C14_designer_accepts", "C14_finisher_accepts", "C14_system_designer_accepts", "C14_finisher_accepts_unconditional", "C14_system_finisher_accepts", "C14_system_finisher_accepts_unconditional"]
 TRUSTED = c01.TRUSTED + ["harness filler producing a nucleotide string that satisfies the arrays (for the finisher leg)"]
 ASSUMPTIONS = c01.ASSUMPTIONS
 
